@@ -119,7 +119,7 @@ def run(chk):
     for ci, (c, per) in enumerate(zip(cases, results)):
         for lang in common.LANGS:
             r = per[lang]
-            if r["status"] in ("panic", "abort", "error"):
+            if r["status"] in ("panic", "abort", "hang", "error"):
                 continue          # refused or crashed: other properties' business
             if r["status"] == "unreadable":
                 chk.extra.setdefault("unreadable_outputs", {}).setdefault(lang, 0)
